@@ -33,7 +33,7 @@ type c06Hist struct {
 
 func init() {
 	register(&Prop{ID: "C06", Run: c06Run,
-		Rule: "histories of Put (leaf / list / container values, incl. leafless containers) / Add / Populate over 4 layer names and path-safe paths of 1-3 components from a 5-key pool with 0-2 index groups (indices 0-3) per component, generated against a scratch overlay so that at most a few steps fall outside the domain (those are skipped by the same decidable predicate at evaluation time); after every write the layer names and every layer's content (Layers()) are compared; reads (LayerNames, Lookup, LookupAny, Search with 4 predicate kinds, Walk with and without early stop, Merged with both list strategies + Serialize, Layers() snapshots re-read at the end) are interleaved. A case is non-trivial when at least two layers exist at the end and at least 3 writes were executed; distinct = distinct canonical case JSON (hash).",
+		Rule: "histories of Put (leaf / list / container values, incl. leafless containers) / Add / Populate over 4 layer names and path-safe paths of 1-3 components from a 5-key pool with 0-2 index groups (indices 0-3) per component, one write in five aimed at a position an earlier layer defines, into a later layer: Put of a nil leaf (at the leaf or a prefix), Populate with a nil value, or a sparse list write (index >= 1 into a list the later layer does not have, so its null padding covers the earlier items); generated against a scratch overlay so that at most a few steps fall outside the domain (those are skipped by the same decidable predicate at evaluation time); after every write the layer names and every layer's content (Layers()) are compared; reads (LayerNames, Lookup, LookupAny, Search with 4 predicate kinds, Walk with and without early stop, Merged with both list strategies (against the fold of the implementation's own Merge and, independently, against the reference merge of the property text folded over the per-layer AsMap values) + Serialize, Layers() snapshots re-read at the end) are interleaved. A case is non-trivial when at least two layers exist at the end and at least 3 writes were executed; distinct = distinct canonical case JSON (hash).",
 		Assumptions: []string{
 			"domain: no write descends through an existing scalar (a null padding slot of a list, i.e. the nilLeaf singleton at an index step, is not a scalar written by the history and may be descended through), nor by a key step through an existing list (ensurePath's type assertion panics there); out-of-domain steps are skipped on both sides",
 			"Put stores the node it is given: the harness passes fresh nodes; the value model cannot express aliasing",
@@ -385,6 +385,38 @@ func c06Subseq(xs, ys []string) bool {
 	return true
 }
 
+// c06NullOverValue counts the positions at which the later side y holds a null (explicit, or
+// the padding of a sparse list write) while the earlier side x holds a value — the positions
+// where "later wins" must NOT apply. Walks the way the merge pairs positions up.
+func c06NullOverValue(x, y W, app bool) int {
+	cx, okx := wireCont(x)
+	cy, oky := wireCont(y)
+	if okx && oky {
+		n := 0
+		for k, v := range cy {
+			if e, ok := cx[k]; ok {
+				n += c06NullOverValue(e, v, app)
+			}
+		}
+		return n
+	}
+	lx, okx := x.([]any)
+	ly, oky := y.([]any)
+	if okx && oky {
+		n := 0
+		if !app {
+			for i := 0; i < len(lx) && i < len(ly); i++ {
+				n += c06NullOverValue(lx[i], ly[i], app)
+			}
+		}
+		return n
+	}
+	if c04IsNull(y) && !c04IsNull(x) {
+		return 1
+	}
+	return 0
+}
+
 func c06Eval(c *Ctx, kind string, raw []byte) {
 	if kind != "hist" {
 		return
@@ -608,6 +640,7 @@ func c06Eval(c *Ctx, kind string, raw []byte) {
 			obs = append(obs, c06CanonWalk(vis, stopped))
 		case "merged":
 			var mw, mmap, fold W
+			var layerMaps []W
 			var ser1, ser2 []byte
 			var serErr bool
 			out, txt := guard(func() {
@@ -617,6 +650,7 @@ func c06Eval(c *Ctx, kind string, raw []byte) {
 				ls := w.ov.Layers()
 				for _, n := range w.ov.LayerNames() {
 					acc = acc.Merge(ls[n], c04Opts(op.Opt)...)
+					layerMaps = append(layerMaps, plainWire(ls[n].AsMap()))
 				}
 				fold = nodeWire(acc)
 				if op.Opt != "append" {
@@ -636,6 +670,20 @@ func c06Eval(c *Ctx, kind string, raw []byte) {
 				return
 			}
 			c.Direct("merged-eq-fold-of-Merge-in-layer-order", canon(mw) == canon(fold) && canon(mmap) == canon(fold), map[string]any{"op": op, "merged": mw, "fold": fold})
+			// the same clause against a reference that shares no code with the implementation:
+			// the merge of the property text (c04RefDoc, harness/c04.go) folded over the
+			// per-layer AsMap values in layer order, later layers win
+			var ref W = map[string]any{"m": map[string]any{}}
+			nullOver := 0
+			for _, lm := range layerMaps {
+				nullOver += c06NullOverValue(ref, lm, op.Opt == "append")
+				ref = c04RefDoc(ref, lm, op.Opt == "append")
+			}
+			c.Direct("merged-AsMap-eq-reference-fold-of-layer-AsMaps", canon(mmap) == canon(ref) && canon(mw) == canon(ref),
+				map[string]any{"op": op, "layers": layerMaps, "merged": mmap, "expected": ref})
+			if nullOver > 0 {
+				c.Dist("merged:later-null-over-earlier-value")
+			}
 			c.Direct("serialize-serialises-merged-view", !serErr && bytes.Equal(ser1, ser2), map[string]any{"overlay": string(ser1), "merged": string(ser2)})
 			c.Dist("merged:" + op.Opt)
 			sent = append(sent, op)
@@ -736,7 +784,80 @@ func c06GenHist(r *rand.Rand, g *DocGen, maxWrites int) c06Hist {
 	var ops []c06Op
 	var known []string // paths written so far (for aimed reads)
 	nLayers := 3 + r.Intn(2)
+	// aimed: a write into a LATER layer (later in first-write order, or not written yet) at a
+	// position where an earlier layer holds something — an explicit null (Put of a nil leaf,
+	// Populate with a nil value) or a sparse list write whose padding covers the earlier
+	// layer's items. These are the positions where the merged view must keep the earlier value.
+	aimed := func() (c06Op, bool) {
+		if len(w.names) == 0 {
+			return c06Op{}, false
+		}
+		si := r.Intn(len(w.names))
+		src := w.names[si]
+		cands := append([]string{}, w.names[si+1:]...)
+		for _, l := range c06Layers[:nLayers] {
+			seen := false
+			for _, n := range w.names {
+				seen = seen || n == l
+			}
+			if !seen {
+				cands = append(cands, l)
+			}
+		}
+		ks := sortedKeys(w.ov.Layers()[src].Flatten())
+		if len(cands) == 0 || len(ks) == 0 {
+			return c06Op{}, false
+		}
+		op := c06Op{Op: "put", L: pick(r, cands)}
+		p := pick(r, ks)
+		switch k := r.Intn(5); {
+		case k >= 2 && strings.Contains(p, "["):
+			// sparse list write: the list the leaf sits in has n items in the earlier layer
+			p0 := p[:strings.LastIndex(p, "[")]
+			lst, ok := w.ov.Lookup(src, p0).(dom.List)
+			if !ok {
+				return c06Op{}, false
+			}
+			idx := lst.Size() + r.Intn(2)
+			if r.Intn(3) == 0 && lst.Size() > 1 {
+				idx = 1 + r.Intn(lst.Size()-1)
+			}
+			op.Path = fmt.Sprintf("%s[%d]", p0, idx)
+			op.V = scalarWire(1 + r.Intn(9))
+		case k == 1:
+			// Populate with a nil value (plus, sometimes, a sibling value)
+			i := strings.LastIndex(p, ".")
+			key := p[i+1:]
+			if j := strings.Index(key, "["); j >= 0 {
+				key = key[:j]
+			}
+			op.Op = "populate"
+			if i > 0 {
+				op.Path = p[:i]
+			}
+			m := map[string]any{key: scalarWire(nil)}
+			if r.Intn(2) == 0 {
+				m[pick(r, c06Keys)] = g.Scalar(r)
+			}
+			op.V = map[string]any{"m": m}
+		default:
+			// Put of a nil leaf, at the leaf or (null over a composite) at a prefix of its path
+			if r.Intn(3) == 0 {
+				if i := strings.LastIndexAny(p, ".["); i > 0 {
+					p = p[:i]
+				}
+			}
+			op.Path = p
+			op.V = scalarWire(nil)
+		}
+		return op, true
+	}
 	genWrite := func() c06Op {
+		if r.Intn(5) == 0 {
+			if op, ok := aimed(); ok {
+				return op
+			}
+		}
 		op := c06Op{L: c06Layers[r.Intn(nLayers)]}
 		switch k := r.Intn(10); {
 		case k < 6:
